@@ -181,7 +181,9 @@ func runLS2PL(c *core.Ctx) {
 				call, ok := a.(*ast.CallExpr)
 				return ok && an.IsMethodNamed(an.CalleeFunc(info, call), an.PkgResources, "LocalSharedManager", "acquireWithTimeout")
 			}) {
-				if guardedWhereIn(e, info, g, a, func(ex ast.Expr, val bool) bool { return an.SelectedField(fieldInfoOf(e, ex, info), ex) == hasLock && !val }) {
+				if guardedWhereIn(e, info, g, a, func(ex ast.Expr, val bool) bool {
+					return an.SelectedField(fieldInfoOf(e, ex, info), ex) == hasLock && !val
+				}) {
 					hasTests = append(hasTests, a)
 				}
 			}
